@@ -7,6 +7,7 @@ Chokan.Gen.KnownFindings (units excluded from `C17_client_inverse` because they 
 still-open findings; a new failing unit is not excluded and breaks the theorem).
 -/
 import Chokan.Lemmas.KanaAlpha
+import Chokan.Lemmas.KanaAlphaOrder
 import Chokan.Lemmas.Romaji
 import Chokan.Gen.KnownFindings
 
@@ -79,5 +80,42 @@ theorem C17_katakana_rows : table.all (fun row => beqStr row.2.1 (row.1.map (· 
 example : serverConv [0x3076, 0x3063, 0x3075, 0x3047, 114] = some [98, 117, 102, 102, 101, 114] := by
   decide +kernel   -- ぶっふぇr ↦ buffer
 example : serverConv [0x3042, 0x3063] = some [97, 120, 116, 117] := by decide +kernel  -- あっ ↦ axtu
+
+theorem kana_columns : kanaColumnsOk (sortTable table) = true := by decide +kernel
+
+/-- **ASCII letters and digits stay in place and order**: for every input over the client's class, the
+input's ASCII letters and digits, lower-cased, are a subsequence of the result (kana units only add
+letters between them). -/
+theorem C17_keeps_ascii (s out : Str) (hs : ∀ c ∈ s, Chokan.Gen.Romaji.clientClass c = true)
+    (h : serverConv s = some out) : List.Sublist (asciiPart s) out := by
+  have hs' : ∀ c ∈ s, okChar c = true := fun c hc => (C17_okChar_class c).2 (hs c hc)
+  unfold serverConv convert at h
+  rw [nfcKana_id s (fun c hc => okChar_not_mark c (hs' c hc))] at h
+  exact convFuel_keeps_ascii (sortTable table) kana_columns _ s out h
+
+/-- **The result is the concatenation of the results of its units**: the conversion of a non-empty
+in-class input is the spelling of its first unit (the longest table unit at the head, a run of sokuon
+doubling its first letter — `toRomaSequence`) followed by the conversion of the rest. -/
+theorem C17_units (s : Str) (hs : ∀ c ∈ s, Chokan.Gen.Romaji.clientClass c = true) (hne : s ≠ []) :
+    serverConv s = (serverConv (toRomaSequence (sortTable table) s).2).map
+      ((toRomaSequence (sortTable table) s).1 ++ ·) := by
+  have hs' : ∀ c ∈ s, okChar c = true := fun c hc => (C17_okChar_class c).2 (hs c hc)
+  have hrest : ∀ c ∈ (toRomaSequence (sortTable table) s).2, okChar c = true :=
+    fun c hc => hs' c (toRomaSequence_rest_sub _ s c hc)
+  have hp := toRomaSequence_progress (sortTable table) hira_nonempty s hne
+  unfold serverConv convert
+  rw [nfcKana_id s (fun c hc => okChar_not_mark c (hs' c hc)),
+    nfcKana_id _ (fun c hc => okChar_not_mark c (hrest c hc))]
+  cases s with
+  | nil => exact absurd rfl hne
+  | cons a t =>
+    simp only [List.length_cons]
+    rw [convFuel]
+    cases hr : toRomaSequence (sortTable table) (a :: t) with
+    | mk v rest =>
+      simp only
+      rw [hr] at hp
+      rw [convFuel_fuel (sortTable table) hira_nonempty (t.length + 1) (rest.length + 1) rest
+        (by simp only [List.length_cons] at hp; omega) (Nat.lt_succ_self _)]
 
 end Chokan.Props.C17
